@@ -426,3 +426,128 @@ _install2 = install
 def install(lib):  # noqa: F811
     _install2(lib)
     _mqtt_install(lib)
+
+
+# ---------------------------------------------------------------------------- files and JSON (A-FS, A-JSON)
+
+json_ok = z3.Function("json_ok", StrS, BoolS)  # json.loads(s) succeeds
+json_parse = z3.Function("json_parse", StrS, JsonS)
+j_kind = z3.Function("json_kind", JsonS, IntS)  # 0 null 1 bool 2 int 3 float 4 str 5 list 6 dict
+json_dump_of = z3.Function("json_dumps", Ref, StrS)  # json.dumps of the dict object built by save (state at call time)
+dumped_node = z3.Function("dumped_node", Ref, JsonS)  # NodeSchema().dump(node) (state at call time)
+KINDS = ["null", "bool", "int", "float", "str", "list", "dict"]
+
+
+def _files_install(lib):
+    def coro(fn):
+        return CoroVal(None, [], {}, runner=fn)
+
+    def g(I, name):
+        return I.c.heap.get(name, I.w.ghost_sorts[name])
+
+    def effect(I, kind, detail=None):
+        I.c.__dict__.setdefault("fs_effects", []).append((kind, detail, I.c.heap.snapshot()))
+
+    def aio_open(I, a, k, fr, n):
+        path = a[0]
+        mode = k.get("mode", a[1] if len(a) > 1 else "r")
+        cm = LibObj("aiofile", path=path, mode=mode)
+
+        def enter(I2, fr2, n2):
+            c = I2.c
+            if mode == "r":
+                if not c.branch(g(I2, "ghost.file_exists"), "file-exists"):
+                    raise RaiseSig(_exc(I2, "FileNotFoundError", n2))
+                if c.branch(c.fresh("open_fails", BoolS), "open-oserror"):
+                    raise RaiseSig(_exc(I2, "OSError", n2))
+            else:
+                if c.branch(c.fresh("open_fails", BoolS), "open-oserror"):
+                    raise RaiseSig(_exc(I2, "OSError", n2))
+                # A-FS: open(path, "w") truncates the file at open
+                c.heap.set("ghost.disk", z3.StringVal(""))
+                c.heap.set("ghost.file_exists", z3.BoolVal(True))
+                effect(I2, "open-truncate")
+            fh = LibObj("aiofile_handle")
+
+            def hattr(I3, name, fr3, n3):
+                if name == "read":
+                    def read(I4, a4, k4):
+                        def run(I5):
+                            o_ = I5.c.choose([I5.c.fresh("read_oserror", BoolS), I5.c.fresh("read_undecodable", BoolS)], "file-read")
+                            if o_ == 0:
+                                raise RaiseSig(_exc(I5, "OSError", n3))
+                            if o_ == 1:
+                                raise RaiseSig(_exc(I5, "UnicodeDecodeError", n3))
+                            return I5.mk(g(I5, "ghost.disk"), "str")
+                        return coro(run)
+                    return Builtin("file.read", read)
+                if name == "write":
+                    def write(I4, a4, k4):
+                        def run(I5):
+                            c5 = I5.c
+                            s = I5.to_term(a4[0], TStr)
+                            if c5.branch(c5.fresh("write_fails", BoolS), "file-write-oserror"):
+                                c5.heap.set("ghost.disk", c5.fresh("partial_content", StrS))  # any prefix may be on disk
+                                effect(I5, "partial-write", s)
+                                raise RaiseSig(_exc(I5, "OSError", n3))
+                            effect(I5, "write-in-progress", s)  # a crash during the write leaves a proper prefix
+                            c5.heap.set("ghost.disk", z3.Concat(g(I5, "ghost.disk"), s) if not z3.is_string_value(g(I5, "ghost.disk")) or g(I5, "ghost.disk").as_string() else s)
+                            effect(I5, "write-complete", s)
+                            return None
+                        return coro(run)
+                    return Builtin("file.write", write)
+                return MISSING
+            fh.attr = hattr
+            return fh
+
+        def exit_(I2, exc, fr2, n2):
+            if I2.c.branch(I2.c.fresh("close_fails", BoolS), "file-close-oserror"):
+                raise RaiseSig(_exc(I2, "OSError", n2))
+            if mode != "r":
+                effect(I2, "close")
+            return False
+        cm.enter, cm.exit = enter, exit_
+        return cm
+    lib.ext_calls["aiofiles.open"] = aio_open
+
+    def json_loads(I, a, k, fr, n):
+        s = a[0]
+        if isinstance(s, str):
+            import json as _json
+            try:
+                v = _json.loads(s)
+            except ValueError:
+                raise RaiseSig(_exc(I, "JSONDecodeError", n)) from None
+            if v == {}:
+                return I.alloc(TDict(TStr, TJson))
+            raise Unsupported("json.loads of a non-trivial literal")
+        t = I.to_term(s, TStr)
+        if not I.c.branch(json_ok(t), "json-ok"):
+            raise RaiseSig(_exc(I, "JSONDecodeError", n))
+        j = json_parse(t)
+        return json_value(I, j)
+    lib.ext_calls["json.loads"] = json_loads
+
+    def json_dumps(I, a, k, fr, n):
+        d = a[0]
+        if isinstance(d, Obj) and d.typ.kind == "dict":
+            return Sym(json_dump_of(d.ref), "str")
+        if isinstance(d, LibObj) and d.kind == "local_dict":
+            return Sym(json_dump_of(d.obj(I).ref), "str")
+        raise Unsupported("json.dumps of this value")
+    lib.ext_calls["json.dumps"] = json_dumps
+
+    lib.ext_calls["asyncio.sleep"] = lambda I, a, k, fr, n: CoroVal(None, [], {}, runner=lambda I3: None)
+
+
+def json_value(I, j):
+    from . import mmjson
+    return mmjson.json_value(I, j)
+
+
+_install3 = install
+
+
+def install(lib):  # noqa: F811
+    _install3(lib)
+    _files_install(lib)
